@@ -404,8 +404,58 @@ def task_int_data():
 task_int_data.contract_fn = "curves.Curve.knot_insert"
 
 
+# --------------------------------------------------------------------------------------
+# float intervals [a, b] with a + (b - a) > b in double arithmetic (e.g. [0.3, 0.9]): sampling a span at `start + (end - start) * 1` leaves the interval.
+# Products, quotients, the closed integration rule and fit_points with default nodes must work there as they do on the same data given as Fractions (D39)
+# --------------------------------------------------------------------------------------
+def task_float_intervals():
+    fn = "C16:float-interval"
+    out = []
+    ivs = [(a / 100, b / 100) for a in range(1, 60, 3) for b in range(61, 99, 3) if a / 100 + (b / 100 - a / 100) > b / 100][:4]
+    ivs = [(0.3, 0.9), (0.31, 0.88)] + ivs[:2]
+    for a, b in ivs:
+        fa, fb = F(str(a)), F(str(b))
+
+        def mk(conv, lo, hi):
+            mid = conv((F(2) * F(str(lo)) + F(str(hi))) / 3) if conv is F else lo + (hi - lo) / 3
+            A = Curve([conv(lo)] * 3 + [mid] + [conv(hi)] * 3, [conv(F(1)), conv(F(-2)), conv(F(3)), conv(F(1, 2))])
+            B = Curve([conv(lo)] * 2 + [conv(hi)] * 2, [conv(F(2)), conv(F(5))])
+            return A, B
+        cases = {
+            "A*B": lambda A, B: [(A * B)(u) for u in (A.knotvector[0], A.knotvector[-1])],
+            "B*B": lambda A, B: [(B * B)(u) for u in (B.knotvector[0], B.knotvector[-1])],                    # single span: the span IS the interval
+            "Integrate.scalar(B, closed-newton-cotes)": lambda A, B: [calculus.Integrate.scalar(B, None, "closed-newton-cotes")],
+            "A/B": lambda A, B: [(A / B)(u) for u in (A.knotvector[0], A.knotvector[-1])],
+            "Integrate.scalar(closed-newton-cotes)": lambda A, B: [calculus.Integrate.scalar(A, None, "closed-newton-cotes")],
+            "fit_points(default nodes)": lambda A, B: list(_fit_default(A)),
+        }
+        for name, f in cases.items():
+            bad = None
+            try:
+                exact = f(*mk(F, fa, fb))
+                got = f(*mk(float, a, b))
+                dev = max(abs(float(x) - float(y)) / max(1.0, abs(float(y))) for x, y in zip(got, exact))
+                if dev > 1e-9:
+                    bad = "float result %s, exact %s" % ([float(x) for x in got], [float(x) for x in exact])
+            except Exception as e:
+                bad = "%s: %s" % (type(e).__name__, str(e)[:100])
+            out.append(ob("%s:agrees-with-exact[%s,%s,%s]" % (fn, a, b, name), fn, FAILED if bad else PROVED, "B", "concrete", 0.0,
+                          bad or "the float computation works on this interval and agrees with the exact one to 1e-9", dict(kind="c16.interval", a=a, b=b, case=name) if bad else None))
+    return out + [{"_stats": dict(cases=len(out))}]
+
+
+def _fit_default(A):
+    c = Curve(list(A.knotvector))
+    conv = type(A.knotvector[0])
+    c.fit_points([conv(F(i * i - 2, 3)) if conv is F else float(F(i * i - 2, 3)) for i in range(c.npts + 2)])
+    return c.ctrlpoints
+
+
+task_float_intervals.contract_fn = "heavy.MathOperations.mul_spline_curve"
+
+
 def tasks(tier, seed):
-    return [(task_exact, (v,)) for v in VECTORS] + [(task_points, ()), (task_linalg, ()), (task_int_data, ())]
+    return [(task_exact, (v,)) for v in VECTORS] + [(task_points, ()), (task_linalg, ()), (task_int_data, ()), (task_float_intervals, ())]
 
 
 def replay(o):
@@ -415,6 +465,9 @@ def replay(o):
         r = [x for x in task_int_data() if "id" in x and x["id"].endswith(tag)][0]
         return r["status"] == FAILED, "only int / Fraction numbers and the same function", r["detail"]
     w = o["witness"]
+    if w["kind"] == "c16.interval":
+        r = [x for x in task_float_intervals() if "id" in x and x["id"].endswith("[%s,%s,%s]" % (w["a"], w["b"], w["case"]))][0]
+        return r["status"] == FAILED, "works on the float interval and agrees with the exact computation", r["detail"]
     if w["kind"] in ("c16.exact", "c16.float"):
         U, p = VECTORS[w["vector"]]
         table, P, W = ops(U, p)
